@@ -275,6 +275,89 @@ pub fn corpus_texts() -> Vec<(String, String)> {
     texts
 }
 
+/// Directed texts, written by hand around one theme each and validated like the corpus. They are complete small
+/// grids (every body ending x every use of the value, every way of making an alias x every way of writing through it).
+pub fn directed_texts(set: &str) -> Vec<(String, String)> {
+    let mut v: Vec<(String, String)> = Vec::new();
+    match set {
+        "loop-values" => {
+            // the value of a `zolang` used as an expression: the value of the body's last iteration (null when no
+            // iteration ran, after `stop`, after `volgende`, when the body ends in a statement without a value)
+            let endings = [
+                ("expr", "i += 1; i * 10"),
+                ("volgende-last", "i += 1; i * 10; volgende"),
+                ("volgende-after-stel", "i += 1; stel t = i; volgende"),
+                ("volgende-only", "i += 1; volgende"),
+                ("stop-last", "i += 1; i * 10; stop"),
+                ("stop-in-if", "i += 1; als i == 2 { stop }; i * 10"),
+                ("stop-in-else", "i += 1; als i < 2 { i } anders { stop }; i * 10"),
+                ("volgende-in-if", "i += 1; als i == 2 { volgende }; i * 10"),
+                ("volgende-in-else-last", "i += 1; als i < 2 { i * 10 } anders { volgende }"),
+                ("if-value-last", "i += 1; als i > 1 { i * 10 } anders { 0 - i }"),
+                ("if-no-else-last", "i += 1; als i > 5 { i * 10 }"),
+                ("stel-last", "i += 1; stel t = i * 10"),
+                ("block-last", "i += 1; { i * 10 }"),
+                ("empty-block-last", "i += 1; { }"),
+                ("inner-loop-last", "i += 1; stel j = 0; zolang j < 2 { j += 1; j + i }"),
+                ("inner-loop-volgende", "i += 1; stel j = 0; zolang j < 2 { j += 1; j + i; volgende }"),
+                ("call-last", "i += 1; type(i)"),
+            ];
+            for n in [0, 1, 3] {
+                for (name, body) in endings {
+                    let lp = format!("zolang i < {n} {{ {body} }}");
+                    v.push((format!("stel-{name}-{n}"), format!("stel i = 0; stel w = {lp}; print(w); print(type(w)); [w, i]")));
+                    v.push((format!("last-{name}-{n}"), format!("stel i = 0; {lp}")));
+                    v.push((format!("arg-{name}-{n}"), format!("stel i = 0; print(\"{{}} {{}}\", {lp}, i)")));
+                    v.push((format!("branch-{name}-{n}"), format!("stel i = 0; stel w = als ja {{ {lp} }} anders {{ 7 }}; [w, type(w)]")));
+                    v.push((format!("fn-{name}-{n}"), format!("functie f() {{ stel i = 0; {lp} }}; stel r = f(); [r, type(r)]")));
+                    v.push((format!("array-{name}-{n}"), format!("stel i = 0; [1, {lp}, 2]")));
+                }
+            }
+        }
+        "aliases" => {
+            // every way of making two names for one array x every way of writing through one of them
+            let makes = [
+                ("stel", "stel b = a;", "b"),
+                ("assign", "stel b = 0; b = a;", "b"),
+                ("literal", "stel m = [a, a];", "m[1]"),
+                ("index-assign", "stel m = [[], 0, []]; m[1] = a;", "m[1]"),
+                ("index-assign-into-empty-slot", "stel m = [[]]; m[0] = a;", "m[0]"),
+                ("nested-slot", "stel binnen = [0]; stel m = [binnen]; binnen[0] = a; stel laag = m[0];", "laag[0]"),
+                ("param", "functie zet(p) { p[1] = 77; 0 }; zet(a);", "a"),
+                ("param-second", "functie zet(x, p) { p[1] = 77; 0 }; zet(1, a);", "a"),
+                ("returned", "functie zelf(p) { p }; stel b = zelf(a);", "b"),
+                ("via-global", "stel g = [a]; functie haal() { g[0] }; stel b = haal();", "b"),
+                ("self-slot", "stel m = [0, 0]; m[0] = a; m[1] = m[0];", "m[1]"),
+                ("empty-array", "stel e = []; stel m = [0]; m[0] = e; stel b = m[0];", "b"),
+                ("loop-assign", "stel m = [0, 0, 0]; stel i = 0; zolang i < 3 { m[i] = a; i += 1 };", "m[2]"),
+            ];
+            let writes = [
+                // (the target of an index assignment is `name[index]`: an alias that is not a plain name is
+                // written through a temporary name for it)
+                ("through-alias", "stel w_ = {alias}; w_[2] = 9;"),
+                ("through-original", "a[2] = 9;"),
+                ("negative-index", "stel w_ = {alias}; w_[-1] = 8;"),
+                ("both", "a[0] = 4; stel w_ = {alias}; w_[1] = 6;"),
+                ("computed-index", "stel w_ = {alias}; w_[lengte(a) - 3] = 5;"),
+            ];
+            for (mn, make, alias) in makes {
+                for (wn, write) in writes {
+                    let w = write.replace("{alias}", alias);
+                    v.push((format!("{mn}-{wn}"), format!("stel a = [1, 2, 3]; {make} {w} print(a); print({alias}); [a, {alias}, lengte(a), lengte({alias})]")));
+                }
+                // a write that fails leaves both views unchanged
+                v.push((format!("{mn}-out-of-range"), format!("stel a = [1, 2, 3]; {make} print({alias}); stel w_ = {alias}; w_[3] = 1; print(a)")));
+            }
+            // texts are values, not shared: a change through one name is not seen through another
+            for (mn, make, alias) in [("stel", "stel b = s;", "b"), ("literal", "stel m = [s, s];", "m[0]"), ("index-assign", "stel m = [0]; m[0] = s;", "m[0]")] {
+                v.push((format!("text-{mn}"), format!("stel s = \"abc\"; {make} s[0] = \"x\"; print(s); print({alias}); [s, {alias}]")));
+            }
+        }
+        _ => {}
+    }
+    v
+}
+
 /// Records for the corpus: the tree is the one the real parser builds (texts it rejects
 /// are kept out: without a tree the reference semantics has nothing to evaluate).
 pub fn gen_corpus(args: &Args) {
@@ -288,9 +371,20 @@ pub fn gen_corpus(args: &Args) {
         ..Default::default()
     };
     let mut id = first_id;
-    for (origin, text) in corpus_texts() {
+    let set = args.get("set", "");
+    let texts = if set.is_empty() { corpus_texts() } else { directed_texts(&set) };
+    let shard = args.num("shard", 0);
+    let shards = args.num("shards", 1);
+    for (k, (origin, text)) in texts.into_iter().enumerate() {
+        if (k as u64) % shards != shard {
+            continue;
+        }
         let p = w.parse(&text);
         if p["ok"] != true {
+            if !set.is_empty() {
+                eprintln!("directed text does not parse ({origin}): {text}");
+                std::process::exit(1);
+            }
             continue;
         }
         let r = w.eval(&text, &opts);
